@@ -436,4 +436,183 @@ theorem pull_cases {cfg : Cfg} {hash : Bytes → Digest} {name : Name} {reg : Re
         cases h
         exact ⟨_, s, _, st2, hdl, hv, rfl, Or.inr ⟨rfl, rfl, rfl, rfl⟩⟩
 
+/-! ## the honest path (for `retry_can_succeed`) -/
+
+theorem mrr_pass {α : Type} (cfg : Cfg) (realm : Bytes) (a : α) (k : Nat) (net : Net) :
+    mrr cfg realm (.pass a) (k + 1) [] net = (.ok a, [], net, 1) := by
+  simp [mrr, pop]
+
+theorem zeros_length (n : Nat) : (zeros n).length = n := by simp [zeros]
+
+theorem writeAt_spec (file d : Bytes) (off : Nat) (hd : d ≠ []) (h : off + d.length ≤ file.length) :
+    (writeAt file off d).length = file.length ∧
+    (writeAt file off d).take (off + d.length) = file.take off ++ d := by
+  have he : d.isEmpty = false := by cases d <;> simp_all
+  have hz : off - file.length = 0 := by omega
+  unfold writeAt
+  simp only [he, hz, zeros, List.replicate_zero, List.append_nil, Bool.false_eq_true, ↓reduceIte]
+  constructor
+  · simp only [List.length_append, List.length_take, List.length_drop]; omega
+  · have hl : (file.take off ++ d).length = off + d.length := by
+      simp only [List.length_append, List.length_take]; omega
+    rw [List.append_assoc, ← List.append_assoc (file.take off) d, ← hl, List.take_left']
+    rfl
+
+/-- an honest chunk for an untouched part that lies inside the blob completes it -/
+theorem chunkStep_honest (c file : Bytes) (off sz : Nat) (w : Bool) (hsz : 0 < sz) (hin : off + sz ≤ c.length) :
+    chunkStep c honestReply ⟨file, ⟨off, sz, 0⟩, w⟩ =
+      (.done, ⟨writeAt file off ((c.drop off).take sz), ⟨off, sz, sz⟩, true⟩) := by
+  have hlen : ((c.drop off).take sz).length = sz := by
+    simp only [List.length_take, List.length_drop]; omega
+  have hne : ((c.drop off).take sz).isEmpty = false := by
+    cases h : (c.drop off).take sz with
+    | nil => rw [h] at hlen; simp at hlen; omega
+    | cons _ _ => rfl
+  simp only [chunkStep, honestReply, bodyOf, Nat.add_zero, Nat.sub_zero, Nat.add_sub_cancel_left,
+    List.take_take, Nat.min_self, hlen, hne, if_true, Bool.not_false, Bool.or_true, Nat.zero_add]
+
+/-- honest CDN, fresh plan: all parts complete and the file is the blob -/
+theorem runParts_plan (cfg : Cfg) (c : Bytes) (hret : 0 < cfg.retries) :
+    ∀ (f off size : Nat) (file : Bytes) (n : Nat), 0 < size → c.length - off ≤ f → off ≤ c.length →
+      file.length = c.length → file.take off = c.take off →
+      ∃ ps n', runParts cfg c (planLoop c.length f off size) [] file n = (true, c, ps, n') := by
+  intro f
+  induction f with
+  | zero =>
+    intro off size file n _ hf hoff hlen htake
+    have : off = c.length := by omega
+    subst this
+    refine ⟨[], n, ?_⟩
+    have : file = c := by
+      rw [← List.take_length (l := file), hlen, htake, List.take_length]
+    simp [planLoop, runParts, this]
+  | succ f ih =>
+    intro off size file n hsize hf hoff hlen htake
+    by_cases hlt : off < c.length
+    · obtain ⟨t, ht⟩ : ∃ t, cfg.retries = t + 1 := ⟨cfg.retries - 1, by omega⟩
+      -- the size of this part
+      have hsz : ∃ sz, (if off + size > c.length then c.length - off else size) = sz ∧ 0 < sz ∧ off + sz ≤ c.length := by
+        by_cases hb : off + size > c.length
+        · exact ⟨c.length - off, by simp [hb], by omega, by omega⟩
+        · exact ⟨size, by simp [hb], hsize, by omega⟩
+      obtain ⟨sz, hszeq, hszpos, hszin⟩ := hsz
+      have hbody : ((c.drop off).take sz).length = sz := by
+        simp only [List.length_take, List.length_drop]; omega
+      have hbne : (c.drop off).take sz ≠ [] := by
+        intro e; rw [e] at hbody; simp at hbody; omega
+      obtain ⟨wl, wt⟩ := writeAt_spec file ((c.drop off).take sz) off hbne (by rw [hbody, hlen]; exact hszin)
+      rw [hbody] at wt
+      have htake' : (writeAt file off ((c.drop off).take sz)).take (off + sz) = c.take (off + sz) := by
+        rw [wt, htake, List.take_add]
+      obtain ⟨ps, n', hrest⟩ := ih (off + sz) sz (writeAt file off ((c.drop off).take sz)) (n + 1)
+        hszpos (by omega) hszin (wl.trans hlen) htake'
+      refine ⟨⟨off, sz, sz⟩ :: ps, n', ?_⟩
+      have hne : ¬ (0 = sz) := by omega
+      simp only [planLoop, hlt, if_true, hszeq, runParts, pop, hne, if_false, runPart, ht, runTail,
+        chunkStep_honest c file off sz false hszpos hszin, hrest, Bool.and_self]
+    · have : off = c.length := by omega
+      subst this
+      refine ⟨[], n, ?_⟩
+      have : file = c := by
+        rw [← List.take_length (l := file), hlen, htake, List.take_length]
+      simp [planLoop, runParts, this]
+
+theorem planSize_pos (cfg : Cfg) (total : Nat) (hmin : 0 < cfg.minSize) (hmax : 0 < cfg.maxSize) :
+    0 < planSize cfg total := by
+  show 0 < (if total / cfg.nparts < cfg.minSize then cfg.minSize
+    else if total / cfg.nparts > cfg.maxSize then cfg.maxSize else total / cfg.nparts)
+  by_cases h1 : total / cfg.nparts < cfg.minSize
+  · rw [if_pos h1]; exact hmin
+  · by_cases h2 : total / cfg.nparts > cfg.maxSize
+    · rw [if_neg h1, if_pos h2]; exact hmax
+    · rw [if_neg h1, if_neg h2]; omega
+
+/-- honest registry, no resume state: the layer is fetched completely and exactly -/
+theorem downloadLayer_honest (cfg : Cfg) (reg : Registry) (d : Digest) (c : Bytes) (net : Net)
+    (hret : 0 < cfg.retries) (hmin : 0 < cfg.minSize) (hmax : 0 < cfg.maxSize)
+    (hc : lookupC d reg.content = some c) :
+    ∃ net', downloadLayer cfg reg d LScript.empty Partial.none net = (.ok c, Partial.none, net') := by
+  obtain ⟨ps, n', hrun⟩ := runParts_plan cfg c hret c.length 0 (planSize cfg c.length) (zeros c.length) net.nc
+    (planSize_pos cfg _ hmin hmax) (by omega) (by omega) (zeros_length _) (by simp)
+  have h1 : (downloadLayer cfg reg d LScript.empty Partial.none net).1 = .ok c := by
+    simp only [downloadLayer, hc, Partial.none, LScript.empty, List.isEmpty_nil, if_true, mrr_pass,
+      Option.getD_some, Option.getD_none, resize, List.take_nil, List.nil_append, List.length_nil,
+      Nat.sub_zero, directLoop, Bool.and_false, Bool.false_eq_true,
+      if_false, plan, hrun]
+  have h2 : (downloadLayer cfg reg d LScript.empty Partial.none net).2.1 = Partial.none := by
+    simp only [downloadLayer, hc, Partial.none, LScript.empty, List.isEmpty_nil, if_true, mrr_pass,
+      Option.getD_some, Option.getD_none, resize, List.take_nil, List.nil_append, List.length_nil,
+      Nat.sub_zero, directLoop, Bool.and_false, Bool.false_eq_true,
+      if_false, plan, hrun]
+  exact ⟨(downloadLayer cfg reg d LScript.empty Partial.none net).2.2, Prod.ext h1 (Prod.ext h2 rfl)⟩
+
+/-- honest registry, honest scripts: the download loop succeeds and every blob it adds is the
+    registry's (so hashes to its name) -/
+theorem dlLoop_honest (cfg : Cfg) (hash : Bytes → Digest) (reg : Registry)
+    (hret : 0 < cfg.retries) (hmin : 0 < cfg.minSize) (hmax : 0 < cfg.maxSize) (ls : List Layer) :
+    ∀ (s : DlState),
+      (∀ l ∈ ls, ∃ d c, l.digest = .ok d ∧ lookupC d reg.content = some c ∧ hash c = d) →
+      (∀ d c, s.st.blobs d = some c → hash c = d) →
+      (∀ l ∈ ls, ∀ d, l.digest = .ok d → s.st.blobs d = none → s.st.partials d = Partial.none) →
+      ∃ s', dlLoop cfg reg Scripts.honest ls s = (.ok (), s') ∧
+        (∀ d c, s'.st.blobs d = some c → hash c = d) := by
+  induction ls with
+  | nil => intro s _ hb _; exact ⟨s, rfl, hb⟩
+  | cons l ls ih =>
+    intro s hreg hb hclean
+    obtain ⟨d, c, hd, hc, hh⟩ := hreg l (by simp)
+    have hreg' : ∀ l' ∈ ls, ∃ d c, l'.digest = .ok d ∧ lookupC d reg.content = some c ∧ hash c = d :=
+      fun l' hl' => hreg l' (by simp [hl'])
+    cases hbl : s.st.blobs d with
+    | some c0 =>
+      obtain ⟨s', hs', hb'⟩ := ih { s with skip := setSkip d true s.skip } hreg' hb
+        (fun l' hl' d' hd' hn => hclean l' (by simp [hl']) d' hd' hn)
+      refine ⟨s', ?_, hb'⟩
+      simp only [dlLoop, hd, hbl]
+      exact hs'
+    | none =>
+      have hpa := hclean l (by simp) d hd hbl
+      obtain ⟨net', hdl⟩ := downloadLayer_honest cfg reg d c s.net hret hmin hmax hc
+      let s1 : DlState :=
+        { st := { s.st with blobs := upd s.st.blobs d (some c), partials := upd s.st.partials d Partial.none }
+          net := net', skip := setSkip d false s.skip, renamed := s.renamed ++ [d] }
+      have hb1 : ∀ x cx, s1.st.blobs x = some cx → hash cx = x := by
+        intro x cx hx
+        by_cases e : x = d
+        · subst e
+          simp only [s1, upd_same] at hx
+          cases hx; exact hh
+        · simp only [s1, upd_other _ _ _ _ e] at hx
+          exact hb x cx hx
+      have hcl1 : ∀ l' ∈ ls, ∀ d', l'.digest = .ok d' → s1.st.blobs d' = none → s1.st.partials d' = Partial.none := by
+        intro l' hl' d' hd' hn
+        by_cases e : d' = d
+        · subst e; simp only [s1, upd_same] at hn; cases hn
+        · simp only [s1, upd_other _ _ _ _ e] at hn ⊢
+          exact hclean l' (by simp [hl']) d' hd' hn
+      obtain ⟨s', hs', hb'⟩ := ih s1 hreg' hb1 hcl1
+      refine ⟨s', ?_, hb'⟩
+      have hls : lookupS d Scripts.honest.layers = LScript.empty := rfl
+      simp only [dlLoop, hd, hbl, hls, hpa, hdl]
+      exact hs'
+
+/-- if every stored layer hashes to its name the verify loop passes -/
+theorem verifyLoop_honest (hash : Bytes → Digest) (skip : List (Digest × Bool)) (ls : List Layer) (st : Store)
+    (hb : ∀ d c, st.blobs d = some c → hash c = d)
+    (hpresent : ∀ l ∈ ls, ∀ d, l.digest = .ok d → ∃ c, st.blobs d = some c) :
+    verifyLoop hash skip ls st = (.ok (), st) := by
+  induction ls with
+  | nil => rfl
+  | cons l ls ih =>
+    have ih' := ih (fun l' hl' => hpresent l' (by simp [hl']))
+    unfold verifyLoop
+    split
+    · rename_i d hd
+      split
+      · exact ih'
+      · obtain ⟨c, hc⟩ := hpresent l (by simp) d hd
+        simp only [hc, hb d c hc, if_true]
+        exact ih'
+    · exact ih'
+
 end OllamaVerif.Pull
